@@ -87,6 +87,7 @@ func main() {
 		fmt.Fprintf(os.Stderr, "protolint: cannot load %s: %v\n", *repo, err)
 		os.Exit(2)
 	}
+	theProgram = p
 	c := newCtx(*prop, *tier, p)
 	code := func() (code int) {
 		defer func() {
